@@ -261,7 +261,7 @@ let run_trace infile outfile =
 
 let conf_str (c : conf) : string =
   let l x = String.concat "," (List.map (fun i -> string_of_int (int_of_nat i)) x) in
-  Printf.sprintf "(%s)&&(%s)%s" (l c.c_in) (l c.c_out) (if c.c_auto then " autoleave" else "")
+  Printf.sprintf "(%s)&&(%s)%s learners(%s)" (l c.c_in) (l c.c_out) (if c.c_auto then " autoleave" else "") (l c.c_learn)
 
 (* ... <nlog> (t p)* CFG <nin> ids <nout> ids <auto> *)
 let split_cfg (toks : string list) : string list * conf =
@@ -275,8 +275,9 @@ let split_cfg (toks : string list) : string list * conf =
   let cin, r = take_n nin r in
   let nout, r = (List.hd r, List.tl r) in
   let cout, r = take_n nout r in
-  let auto = (match r with [a] -> a = 1 | _ -> failwith "bad CFG") in
-  (st, { c_in = List.map nat_of_int cin; c_out = List.map nat_of_int cout; c_auto = auto })
+  let auto, r = (match r with a :: r -> (a = 1, r) | _ -> failwith "bad CFG") in
+  let learn = (match r with [] -> [] | nl :: r -> fst (take_n nl r)) in
+  (st, { c_in = List.map nat_of_int cin; c_out = List.map nat_of_int cout; c_auto = auto; c_learn = List.map nat_of_int learn })
 
 (* do all quorums of configurations a and b intersect?  (ids 1..n; brute force over the 2^n
    subsets p: a quorum of a inside p and a quorum of b inside the complement of p would be disjoint) *)
@@ -296,7 +297,7 @@ let normalize_cc (n : int) (x : cxstate) : cxstate =
 let run_tracecc infile outfile =
   let oc = open_out_bin outfile in
   let lines = read_lines infile in
-  let cur_k = ref "" and cur_n = ref 0 and header = ref "" and cur_boot = ref 0 and cur_page1 = ref false and cur_skip = ref false in
+  let cur_k = ref "" and cur_n = ref 0 and header = ref "" and cur_boot = ref 0 and cur_page1 = ref false and cur_skip = ref false and cur_learners = ref false in
   let groups : group list ref = ref [] in
   let cur : group option ref = ref None in
   let flush_group () = (match !cur with Some g -> groups := { g with g_out = List.rev g.g_out } :: !groups | None -> ()); cur := None in
@@ -306,7 +307,7 @@ let run_tracecc infile outfile =
     groups := [];
     if !cur_skip then Printf.fprintf oc "S %s SKIP learners\n" !cur_k else
     let n = !cur_n in
-    let boot = { c_in = List.init !cur_boot (fun i -> nat_of_int (i + 1)); c_out = []; c_auto = false } in
+    let boot = { c_in = List.init !cur_boot (fun i -> nat_of_int (i + 1)); c_out = []; c_auto = false; c_learn = [] } in
     let page1 = !cur_page1 in
     let x = ref (normalize_cc n cx_init) in
     let fail = ref None in
@@ -363,13 +364,14 @@ let run_tracecc infile outfile =
      | None ->
        let fam = !family in
        let inside = List.for_all (fun a -> List.for_all (fun b -> confs_intersect n a b) fam) fam in
-       Printf.fprintf oc "S %s OK events=%d nodes=%d elections=%d confswitches=%d configs=%d envelope=%d\n" !cur_k !idx n !elections !confs
-         (List.length fam) (if inside then 1 else 0)) in
+       Printf.fprintf oc "S %s OK events=%d nodes=%d elections=%d confswitches=%d configs=%d envelope=%d learners=%d\n" !cur_k !idx n !elections !confs
+         (List.length fam) (if inside then 1 else 0)
+         (if !cur_learners then 1 else 0)) in
   List.iter (fun l ->
       match split_ws l with
       | ["SCHEDULE"; k] -> cur_k := k; groups := []; cur := None
       | "N" :: n :: _ :: _ :: ms :: k :: rest -> cur_n := int_of_string n; cur_boot := int_of_string k; cur_page1 := (ms = "0"); header := l;
-        cur_skip := (match rest with f :: _ -> int_of_string f land 4 <> 0 | [] -> false)
+        cur_skip := false; cur_learners := (match rest with f :: _ -> int_of_string f land 4 <> 0 | [] -> false)
       | "EV" :: kind :: id :: args -> flush_group (); cur := Some { g_kind = kind; g_id = int_of_string id; g_args = args; g_out = []; g_st = None; g_panic = None }
       | "OUT" :: toks -> (match !cur with Some g -> cur := Some { g with g_out = toks :: g.g_out } | None -> ())
       | "ST" :: toks -> (match !cur with Some g -> cur := Some { g with g_st = Some toks } | None -> ())
